@@ -29,8 +29,10 @@ func zzObserve(ctx context.Context, s *Store[*zh.Hdr], chain []*zh.Hdr) zzView {
 	return v
 }
 
-// zzHistory applies L operations (append of a sub-run, sync, deletion of one header at either end).
-func zzHistory(ctx context.Context, s *Store[*zh.Hdr], chain []*zh.Hdr, K, L int, d *zzMemDS, faults bool) {
+// zzHistory applies L operations (append of a sub-run, sync, deletion of one header at either end) and
+// returns them so that the same history can be applied to a reference store.
+func zzHistory(ctx context.Context, s *Store[*zh.Hdr], chain []*zh.Hdr, K, L int, d *zzMemDS, faults bool) []func(*Store[*zh.Hdr]) {
+	var ops []func(*Store[*zh.Hdr])
 	for op := 0; op < L; op++ {
 		if faults && zz.Bool("fault.here") {
 			// a window of 1..3 consecutive failing writes starting with the next write attempt
@@ -38,27 +40,37 @@ func zzHistory(ctx context.Context, s *Store[*zh.Hdr], chain []*zh.Hdr, K, L int
 			d.failN = 1 + zz.Choice("fault.n", 3)
 			zz.Reach("faults-armed")
 		}
+		var f func(*Store[*zh.Hdr])
 		switch zz.Choice("op", 3) {
 		case 0:
 			i := zz.Choice("app.i", K)
 			j := i + zz.Choice("app.len", K-i)
-			zz.Assert(s.Append(ctx, chain[i:j+1]...) == nil, "Append accepts chain headers")
+			f = func(s *Store[*zh.Hdr]) {
+				zz.Assert(s.Append(ctx, chain[i:j+1]...) == nil, "Append accepts chain headers")
+			}
 		case 1:
-			zz.Assert(s.Sync(ctx) == nil, "Sync succeeds")
+			f = func(s *Store[*zh.Hdr]) { zz.Assert(s.Sync(ctx) == nil, "Sync succeeds") }
 		case 2:
-			head, e1 := s.Head(ctx)
-			tail, e2 := s.Tail(ctx)
-			if e1 != nil || e2 != nil {
-				continue
+			tailSide := zz.Bool("del.tailside")
+			f = func(s *Store[*zh.Hdr]) {
+				zz.Assert(s.Sync(ctx) == nil, "Sync succeeds")
+				head, e1 := s.Head(ctx)
+				tail, e2 := s.Tail(ctx)
+				if e1 != nil || e2 != nil {
+					return
+				}
+				if tailSide {
+					_ = s.DeleteRange(ctx, tail.H, tail.H+1) // may fail part-way when a write fault is armed
+				} else {
+					_ = s.DeleteRange(ctx, head.H, head.H+1)
+				}
+				zz.Reach("delete")
 			}
-			if zz.Bool("del.tailside") {
-				_ = s.DeleteRange(ctx, tail.H, tail.H+1) // may fail part-way when a write fault is armed
-			} else {
-				_ = s.DeleteRange(ctx, head.H, head.H+1)
-			}
-			zz.Reach("delete")
 		}
+		f(s)
+		ops = append(ops, f)
 	}
+	return ops
 }
 
 // zzCheckReopened: the C06 oracle for a store reopened on surviving data.
@@ -113,23 +125,37 @@ func ZzC06() {
 	d := zzNewMemDS()
 	s := zzOpen(d, cfg)
 	chain := zzChain(cfg.base, K+1) // the last header is only used as continuation
-	if pre := zz.Choice("prelude", K); pre > 0 {
+	pre := zz.Choice("prelude", K)
+	if pre > 0 {
 		zz.Assert(s.Append(ctx, chain[:pre]...) == nil, "Append accepts chain headers")
 		zz.Assert(s.Stop(ctx) == nil, "Stop succeeds")
 		s = zzOpen(d, cfg)
 	}
-	zzHistory(ctx, s, chain, K, L, d, mode == 2)
+	ops := zzHistory(ctx, s, chain, K, L, d, mode == 2)
 
 	switch mode {
 	case 0:
-		// everything whose Append returned before Stop must be there afterwards, with the same Head and Tail
-		zz.Assert(s.Sync(ctx) == nil, "Sync succeeds")
-		before := zzObserve(ctx, s, chain)
+		// everything whose Append returned before Stop must be there afterwards, with the same Head and Tail.
+		// Stop follows the last operation directly (no Sync in between); the expectation comes from a
+		// reference store that ran the same history and was synced before stopping.
 		zz.Assert(s.Stop(ctx) == nil, "Stop succeeds")
 		s2 := zzOpen(d, cfg)
 		after := zzObserve(ctx, s2, chain)
+		dr := zzNewMemDS()
+		sr := zzOpen(dr, cfg)
+		if pre > 0 {
+			zz.Assert(sr.Append(ctx, chain[:pre]...) == nil, "Append accepts chain headers")
+			zz.Assert(sr.Stop(ctx) == nil, "Stop succeeds")
+			sr = zzOpen(dr, cfg)
+		}
+		for _, f := range ops {
+			f(sr)
+		}
+		zz.Assert(sr.Sync(ctx) == nil, "Sync succeeds")
+		before := zzObserve(ctx, sr, chain)
+		zz.Assert(sr.Stop(ctx) == nil, "Stop succeeds")
 		zz.Reach("restarted")
-		zz.Assert(before.head == after.head, "same Head after a clean restart")
+		zz.Assert(before.head == after.head, "same Head after a clean restart, including everything whose Append returned before Stop")
 		zz.Assert(before.tail == after.tail, "same Tail after a clean restart")
 		for i := range chain {
 			zz.Assert(before.byHeight[i] == after.byHeight[i] && before.byHash[i] == after.byHash[i], "same headers after a clean restart")
